@@ -25,6 +25,10 @@ structure MethodFact where
   name : String
   pointer : Bool
   assigns : List String
+  /-- receiver fields written *through* (index, dereference, nested field): shared even under a value receiver -/
+  deep : List String
+  /-- methods invoked on receiver fields, as "Field.Method" -/
+  calls : List String
   deriving DecidableEq, Repr
 
 end Psa
